@@ -232,7 +232,8 @@ impl FixedOffset {
 // CLI-WINDOW — how the two bounds are taken from the command line (cli_process_args, src/bin/s4.rs): the lower bound from the -a
 // text, the upper from the -b text, both read in the --tz-offset zone; the one written relative to the other ("@+1d") is read
 // second and is given the other as its reference; and the run does not start with a lower bound after the upper one (the
-// precondition unit SRCH states for find_sysline_between_datetime_filters).  The two `match` statements, cut from the function.
+// precondition unit SRCH states for find_sysline_between_datetime_filters).  The statements from the first `match` up to the next
+// declaration (the colour choice), cut from the function, so that the order check is inside the slice wherever it is placed.
 // ---- assumed: process_dt_exit (src/bin/s4.rs; string handling outside Verus' reach) as an opaque function of the text, the zone and
 // the reference bound
 pub uninterp spec fn parsed(dts: Option<StringD>, tz: FixedOffset, other: DateTimeLOpt) -> DateTimeLOpt;
@@ -240,7 +241,10 @@ pub uninterp spec fn parsed(dts: Option<StringD>, tz: FixedOffset, other: DateTi
 pub fn process_dt_exit(dts_opt: &Option<StringD>, tz_offset: &FixedOffset, dt_other: &DateTimeLOpt, now_utc: &Timestamp) -> (r: DateTimeLOpt)
     ensures r == parsed(*dts_opt, *tz_offset, *dt_other)
 { unimplemented!() }
-pub struct CLI_ArgsW { pub dt_after: Option<StringD>, pub dt_before: Option<StringD> }
+//@cut type kind=enum path=src/bin/s4.rs name=CLI_Color_Choice derives=Clone,Copy
+//@end
+pub enum ColorChoice { Always, AlwaysAnsi, Auto, Never }   // termcolor's, for the statement that ends the slice
+pub struct CLI_ArgsW { pub dt_after: Option<StringD>, pub dt_before: Option<StringD>, pub color_choice: CLI_Color_Choice }
 pub open spec fn window_normal(args: &CLI_ArgsW, tz: FixedOffset, r: (DateTimeLOpt, DateTimeLOpt)) -> bool {
     r.0 == parsed(args.dt_after, tz, None) && r.1 == parsed(args.dt_before, tz, r.0)
 }
@@ -255,7 +259,7 @@ pub fn cli_window(args: &CLI_ArgsW, args_dt_after_s: &StringD, args_dt_before_s:
 {
     let filter_dt_after: DateTimeLOpt;
     let filter_dt_before: DateTimeLOpt;
-//@cut slice path=src/bin/s4.rs fn=cli_process_args anchor="match (string_wdhms_to_duration(args_dt_after_s), string_wdhms_to_duration(args_dt_before_s))" take=range end_anchor="match (filter_dt_after, filter_dt_before)" label=CLI-WINDOW
+//@cut slice path=src/bin/s4.rs fn=cli_process_args anchor="match (string_wdhms_to_duration(args_dt_after_s), string_wdhms_to_duration(args_dt_before_s))" take=range end_anchor="let color_choice: ColorChoice = match args.color_choice {" label=CLI-WINDOW
 //@replace "std::process::exit(EXIT_ERR);" "verif_exit();" count=*
 //@before "verif_exit();" 2
                 proof { assert(instant(dta) > instant(dtb)); }   // C03: the window is closed, A == B is a valid window; only A > B is refused
